@@ -91,8 +91,8 @@ func checkRegexGrammarDocs(c *Ctx, rule string) {
 		if fd.Body == nil {
 			return
 		}
-		if fd.Recv == nil {
-			// New: p.field = expr
+		{
+			// New (or a method it calls to define a group of combinators): p.field = expr
 			ast.Inspect(fd.Body, func(n ast.Node) bool {
 				as, ok := n.(*ast.AssignStmt)
 				if !ok || len(as.Lhs) != 1 || len(as.Rhs) != 1 {
@@ -108,7 +108,9 @@ func checkRegexGrammarDocs(c *Ctx, rule string) {
 				}
 				return true
 			})
-			return
+			if fd.Recv == nil {
+				return
+			}
 		}
 		// recursive rules: methods with the parser signature whose result is <expr>(in)
 		fn, _ := info.Defs[fd.Name].(*types.Func)
